@@ -54,6 +54,10 @@ type c07H3Script struct {
 	response []byte // bytes written on the request stream
 	closeCtl bool   // close the control stream afterwards (critical stream closure)
 	reset    int    // >=0: reset the request stream with this code instead of FIN
+	// stagedUni: the peer first opens ALL its unidirectional streams and writes only the stream-type
+	// byte of each, pauses, and then writes the rest of each (an interleaving chosen by the server:
+	// every stream passes the client's per-type guards before any of them delivers a frame)
+	stagedUni bool
 }
 
 type c07H3Peer struct {
@@ -123,19 +127,38 @@ func (p *c07H3Peer) serveConn(conn quic.Connection) {
 	if sc != nil {
 		ctl, closeCtl, extra = sc.control, sc.closeCtl, sc.extraUni
 	}
-	if len(ctl) > 0 {
-		if s, err := conn.OpenUniStream(); err == nil {
-			s.Write(ctl)
-			if closeCtl {
-				s.Close()
+	if sc != nil && sc.stagedUni {
+		var strs []quic.SendStream
+		var rests [][]byte
+		for _, e := range append([][]byte{ctl}, extra...) {
+			if len(e) == 0 {
+				continue
+			}
+			if s, err := conn.OpenUniStream(); err == nil {
+				s.Write(e[:1])
+				strs = append(strs, s)
+				rests = append(rests, e[1:])
 			}
 		}
-	}
-	for _, e := range extra {
-		if s, err := conn.OpenUniStream(); err == nil {
-			s.Write(e)
-			if len(e)%2 == 0 {
-				s.Close()
+		time.Sleep(40 * time.Millisecond)
+		for i, s := range strs {
+			s.Write(rests[i])
+		}
+	} else {
+		if len(ctl) > 0 {
+			if s, err := conn.OpenUniStream(); err == nil {
+				s.Write(ctl)
+				if closeCtl {
+					s.Close()
+				}
+			}
+		}
+		for _, e := range extra {
+			if s, err := conn.OpenUniStream(); err == nil {
+				s.Write(e)
+				if len(e)%2 == 0 {
+					s.Close()
+				}
 			}
 		}
 	}
